@@ -273,6 +273,59 @@ theorem mergeRemoteState_ok (cfg : Cfg) (d : Dec) (st : State) (buf : List Nat) 
       · exact mergeEvents_ok cfg _ st h
     · simp [t2, h]
 
+theorem pingComplete_ok (cfg : Cfg) (d : Dec) (p : List Nat) : ∀ s, pingComplete cfg d p ≠ .panic s := by
+  intro s
+  unfold pingComplete
+  by_cases h0 : p.length = 0
+  · simp [h0]
+  · have hpos : 0 < p.length := C09_site_pingDelegate_NotifyPingComplete_index_payload_0 p.length h0
+    have hs : 1 ≤ p.length := (C09_site_pingDelegate_NotifyPingComplete_slice_payload_1 p.length h0).1
+    obtain ⟨v, hv⟩ := getElem0 p hpos
+    simp only [h0, if_false, hv, slice1_ok _ p hs]
+    split
+    · simp
+    · split
+      · simp
+      · split <;> simp
+
+theorem decodeTags_ok (d : Dec) (b : List Nat) : ∀ s, decodeTags d b ≠ .panic s := by
+  intro s
+  unfold decodeTags
+  by_cases h0 : b.length = 0
+  · simp [h0]
+  · have hpos : 0 < b.length := C09_site_Serf_decodeTags_index_buf_0 b.length h0
+    obtain ⟨x, hx⟩ := getElem0 b hpos
+    simp only [h0, if_false, hx]
+    by_cases hm : x ≠ 255
+    · simp [hm]
+    · -- the slice obligation under the negated short-circuit condition `len(buf) == 0 || buf[0] != magic`
+      have hs : 1 ≤ b.length := (C09_site_Serf_decodeTags_slice_buf_1 b.length x (by intro h; cases h with | inl h => exact h0 h | inr h => exact hm h)).1
+      simp only [hm, if_false, slice1_ok _ b hs]
+      split <;> simp
+
+theorem typedReply_ok (si ss : String) (typ : Nat) (dec : List Nat → Option Unit) (p : List Nat)
+    (hidx : ¬ p.length < 1 → 0 < p.length) (hslice : ∀ t, ¬ (p.length < 1 ∨ t ≠ typ) → 1 ≤ p.length ∧ p.length ≤ p.length) :
+    ∀ s, typedReply si ss typ dec p ≠ .panic s := by
+  intro s
+  unfold typedReply
+  by_cases h0 : p.length < 1
+  · simp [h0]
+  · obtain ⟨t, ht⟩ := getElem0 p (hidx h0)
+    simp only [h0, if_false, ht]
+    by_cases htt : t ≠ typ
+    · simp [htt]
+    · have hs := (hslice t (by intro h; cases h with | inl h => exact h0 h | inr h => exact htt h)).1
+      simp only [htt, if_false, slice1_ok _ p hs]
+      split <;> simp
+
+theorem conflictReply_ok (d : Dec) (p : List Nat) : ∀ s, conflictReply d p ≠ .panic s :=
+  typedReply_ok _ _ 6 d.member p (C09_site_Serf_resolveNodeConflict_index_r_Payload_0 p.length)
+    (fun t => C09_site_Serf_resolveNodeConflict_slice_r_Payload_1 p.length t)
+
+theorem keyReply_ok (d : Dec) (p : List Nat) : ∀ s, keyReply d p ≠ .panic s :=
+  typedReply_ok _ _ 8 d.keyResponse p (C09_site_KeyManager_streamKeyResp_index_r_Payload_0 p.length)
+    (fun t => C09_site_KeyManager_streamKeyResp_slice_r_Payload_1 p.length t)
+
 /-- **C09, NotifyMsg.** For every byte string delivered to `NotifyMsg`, every decode oracle, every
 scheduling of the reply channel and every state satisfying the configuration preconditions, the
 handler returns without panicking and leaves a well-formed state. -/
@@ -285,12 +338,48 @@ theorem C09_MergeRemoteState_never_panics (cfg : Cfg) (d : Dec) (st : State) (bu
     (∀ s, (mergeRemoteState d st buf).2 ≠ .panic s) ∧ WF cfg (mergeRemoteState d st buf).1 :=
   mergeRemoteState_ok cfg d st buf h
 
-/-- both entry points -/
+/-- **C09, probe acks, member metadata, replies.** Every probe-ack payload, every metadata blob and every
+reply payload routed to the name-conflict vote or to a key command is processed without panicking. -/
+theorem C09_payload_handlers_never_panic (cfg : Cfg) (d : Dec) (p : List Nat) :
+    (∀ s, pingComplete cfg d p ≠ .panic s) ∧ (∀ s, decodeTags d p ≠ .panic s) ∧
+    (∀ s, conflictReply d p ≠ .panic s) ∧ (∀ s, keyReply d p ≠ .panic s) :=
+  ⟨pingComplete_ok cfg d p, decodeTags_ok d p, conflictReply_ok d p, keyReply_ok d p⟩
+
+/-- **C09, malformed input is ignored.** A gossip message or state-sync payload that does not decode
+(the oracle rejects it) changes nothing and is reported as ignored — whatever its bytes. -/
+theorem C09_undecodable_input_is_ignored (st : State) (buf : List Nat) (sc : Sched) :
+    (∃ why, notifyMsg rejectAll st buf sc = (st, .ignored why)) ∧ (∃ why, mergeRemoteState rejectAll st buf = (st, .ignored why)) := by
+  constructor
+  · unfold notifyMsg
+    by_cases h0 : buf.length = 0
+    · exact ⟨"empty", by simp [h0]⟩
+    · have hpos : 0 < buf.length := by omega
+      have hs : 1 ≤ buf.length := by omega
+      obtain ⟨t, ht⟩ := getElem0 buf hpos
+      simp only [h0, if_false, ht, slice1_ok _ buf hs, rejectAll]
+      repeat (first | exact ⟨_, rfl⟩ | split)
+  · unfold mergeRemoteState
+    by_cases h0 : buf.length = 0
+    · exact ⟨"empty", by simp [h0]⟩
+    · have hpos : 0 < buf.length := by omega
+      have hs : 1 ≤ buf.length := by omega
+      obtain ⟨t, ht⟩ := getElem0 buf hpos
+      simp only [h0, if_false, ht, slice1_ok _ buf hs, rejectAll]
+      repeat (first | exact ⟨_, rfl⟩ | split)
+
+example : ∃ why, notifyMsg rejectAll initState [4, 0xc1] {} = (initState, .ignored why) :=
+  (C09_undecodable_input_is_ignored initState [4, 0xc1] {}).1
+
+/-- all entry points -/
 theorem C09_handle_never_panics (cfg : Cfg) (d : Dec) (st : State) (inp : Input) (h : WF cfg st) :
     (∀ s, (handle cfg d st inp).2 ≠ .panic s) ∧ WF cfg (handle cfg d st inp).1 := by
   cases inp with
   | msg b sc => exact notifyMsg_ok cfg d st b sc h
   | merge b => exact mergeRemoteState_ok cfg d st b h
+  | ping p => exact ⟨pingComplete_ok cfg d p, h⟩
+  | metadata b => exact ⟨decodeTags_ok d b, h⟩
+  | conflictReply p => exact ⟨conflictReply_ok d p, h⟩
+  | keyReply p => exact ⟨keyReply_ok d p, h⟩
 
 /-- … hence no sequence of network inputs, of any length, makes the node panic. -/
 theorem C09_run_never_panics (cfg : Cfg) (d : Dec) : ∀ (inps : List Input) (st : State), WF cfg st →
@@ -331,9 +420,9 @@ def genSitesOf (fn : String) (kinds : List String) : List String :=
 `.panic` site of the skeleton (or one of the listed trivially-safe ones), and every modelled function
 is still present in the inventory.  A new site in these functions breaks this check. -/
 theorem C09_skeleton_covers_generated_sites :
-    (modelledFunctions.all fun fn =>
-      (sitesByFunction.any fun p => p.1 == fn) &&
-      (genSitesOf fn modelledKinds).all fun s => coveredSites.contains s || triviallySafe.contains s) = true := by
+    (modelled.all fun fk =>
+      (sitesByFunction.any fun p => p.1 == fk.1) &&
+      (genSitesOf fk.1 fk.2).all fun s => coveredSites.contains s || triviallySafe.contains s) = true := by
   decide
 
 /-- conversely every `.panic` site of the skeleton is a generated (and therefore proved) site -/
